@@ -313,7 +313,9 @@ class Bicomplex(object):
         return self.log() / np.log(2)
 
     def log1p(self):
-        return Bicomplex(np.log1p(self.mod_c()), self.arg_c1p())
+        # log(1 + z) = log(mod_c(1 + z)) + j * arg_c(1 + z)
+        z1, z2 = self.z1, self.z2
+        return Bicomplex(0.5 * np.log1p(z1 * (2 + z1) + z2 * z2), self.arg_c1p())
 
     def expm1(self):
         # exp(z1) * (cos(z2) + j*sin(z2)) - 1, written without cancellation for small z1, z2
